@@ -31,6 +31,8 @@ claimed = {
          "Bounds: values of 1-3 (thorough 4) symbolic bytes over 0x01..0xFF, execve 2x2, unix path 3 bytes, IPv6 with 3 symbolic address bytes; known finding C12-single-quote-inside-msg (fields nested in msg='...')."),
  "C20": ("Record types: String/GetAuditMessageType and MarshalText/UnmarshalText round trip for a symbolic 16-bit code (one path per table entry plus the unnamed codes through the UNKNOWN[n] text path); errno, architecture, per-arch syscall tables and the rule package's field/operator/comparison/reverse tables checked entry by entry by running the real lookups on the real tables.",
          "Tables are finite data: the check is a case split per entry; the solver's part is the 16-bit type domain. The normalisation-table clauses (normalizations.yaml) are not yet covered (YAML decoding is reflection; planned via a table image)."),
+ "C13": ("ToCommandLine on valid rules with one or two 32-bit header words made symbolic (and on short buffers), Build on hostile Rule values (syscall digit strings across 0..2047 and beyond, 65 filters, garbage strings, nil/odd rules), flags.Parse on every short ASCII string and on templates with a symbolic hole after each flag: every run-time fault, every allocation beyond 4096 elements that follows a symbolic size, and every loop that exceeds its unwinding cap on a path is a violation; ToCommandLine success implies field_count<=64 and string lengths within the buffer.",
+         "Bounds: 16 header word positions x 5 base rules, 4 word pairs, field_count restricted to boundary regions (quick), 5 symbolic mask bits per word; flag strings <=3 (thorough 5) symbolic bytes. Four defects found and fixed (see known_findings.txt)."),
 }
 props=[json.loads(l)['id'] for l in open('/verif/properties.jsonl')]
 checks=[]
